@@ -138,12 +138,12 @@ def _ell(form, key):
     return key
 
 
-def _series(arr, labels=None):
+def _mk_series(arr, labels=None):
     from spatialpandas import GeoSeries
     return GeoSeries(arr, index=labels)
 
 
-def _frame(arr):
+def _mk_frame(arr):
     from spatialpandas import GeoDataFrame
     return GeoDataFrame({'v': np.arange(len(arr)), 'g': arr}, geometry='g')
 
@@ -180,6 +180,19 @@ def apply_step(kind, arr, st, notes=None):
     import pandas as pd
     op, form = st['op'], st.get('form', 'plain')
     cls = type(arr)
+    ps = st.get('sindex')
+    if ps:
+        # the spatial index of the array the step starts from is built first: a derived
+        # array must not answer from its parent's tree
+        arr.build_sindex(page_size=int(ps))
+
+    def _series(a, labels=None):                   # wrappers with a built index
+        w = _mk_series(a, labels)
+        return w.build_sindex(page_size=int(ps)) if ps else w
+
+    def _frame(a):
+        w = _mk_frame(a)
+        return w.build_sindex(page_size=int(ps)) if ps else w
     if op == 'slice':
         s, e, k = st['args']
         sl = slice(s, e, k)
@@ -253,6 +266,16 @@ def apply_step(kind, arr, st, notes=None):
             return _series(arr, labels).reindex(want).values
         if form == 'series_take':
             return _series(arr).take(list(ix)).values
+        if form in ('series_sort_index', 'df_sort_values'):
+            # ix is a permutation: row ix[k] gets label k, sorting by label realises the take
+            lab = [0] * len(ix)
+            for k, i in enumerate(ix):
+                lab[i] = k
+            if form == 'series_sort_index':
+                return _series(arr, lab).sort_index().values
+            df = _frame(arr)
+            df['v'] = lab
+            return df.sort_values('v')['g'].values
         if form == 'pd_take':
             from pandas.api.extensions import take as pdtake
             return pdtake(arr, np.array(ix, dtype='int64'), allow_fill=allow_fill)
@@ -368,8 +391,16 @@ def _rand_bound(rng, n):
     return rng.choice([-100, 100, 0, n, -n, -n - 1])
 
 
-def rand_step(rng, n, invalid_p=0.12, pandas_forms=True):
-    """a random step for an array of length n (mostly valid, sometimes invalid)"""
+def rand_step(rng, n, invalid_p=0.12, pandas_forms=True, sindex_p=0.35):
+    """a random step for an array of length n (mostly valid, sometimes invalid); with
+    probability sindex_p the spatial index of the array is built (random page_size) first"""
+    st = _rand_step(rng, n, invalid_p, pandas_forms)
+    if rng.random() < sindex_p:
+        st['sindex'] = rng.choice([2, 2, 3, 4, 16, 512])
+    return st
+
+
+def _rand_step(rng, n, invalid_p=0.12, pandas_forms=True):
     bad = rng.random() < invalid_p
     ops = ['slice'] * 5 + ['take'] * 4 + ['mask'] * 3 + ['ints'] * 3 + ['concat'] * 3 + \
           ['copy'] * 2 + ['int'] + (['other', 'notindex'] if bad else [])
@@ -467,6 +498,14 @@ def rand_step(rng, n, invalid_p=0.12, pandas_forms=True):
         if bad and rng.random() < .5:
             fv = rng.choice(['zero', 'NA', 'str', 'geom'])
         forms = ['list', 'numpy', 'numpy']
+        if not bad and n and rng.random() < .3:
+            # a same-length reordering
+            ix = list(range(n))
+            rng.shuffle(ix)
+            if rng.random() < .3:
+                ix[rng.randrange(n)] = ix[0]          # ... or a repeat
+            if pandas_forms and fv == 'none' and not allow_fill and len(set(ix)) == n:
+                forms += ['series_sort_index', 'df_sort_values'] * 2
         if pandas_forms and not bad and fv == 'none' and n:
             if allow_fill:
                 # labels must be unique for reindex
@@ -543,3 +582,73 @@ def same_array(a, b):
         b = b.astype('float64')
         return bool(np.all((a == b) | (np.isnan(a) & np.isnan(b))))
     return bool(np.array_equal(a, b))
+
+
+# --------------------------------------------------------------------------
+# cx / spatial index of a derived array = those of a fresh array of its elements
+# --------------------------------------------------------------------------
+CX_KEYS = [(slice(None), slice(None)), (slice(0, 3), slice(0, 3)), (slice(2, None), slice(None, 1)),
+           (slice(None, -1), slice(-8, 9)), (slice(4, 1), slice(5, 0)), (slice(-6, 0), slice(None)),
+           (slice(1, 1), slice(-9, 9))]
+
+
+def _key_str(k):
+    f = lambda v: '' if v is None else str(v)            # noqa: E731
+    return f'cx[{f(k[0].start)}:{f(k[0].stop)}, {f(k[1].start)}:{f(k[1].stop)}]'
+
+
+def cx_compare(kind, arr, fresh, nkeys=None, wrappers=False):
+    """None, or (signature, what): arr.cx / arr's spatial index against a fresh array's"""
+    keys = CX_KEYS if nkeys is None else CX_KEYS[:nkeys]
+    # like with like: when the derived array carries a built index, the fresh array gets one
+    # with the same page size (whether cx with an index equals cx without one is C04's
+    # subject: it does not for one-vertex lines / rings, which no segment test can hit)
+    carried_sx = getattr(arr, '_sindex', None)
+    if carried_sx is not None:
+        fresh = type(fresh)(fresh.data, dtype=fresh.dtype)
+        fresh.build_sindex(page_size=getattr(carried_sx, '_page_size', 512))
+
+    def rows(a, key, wrap=None):
+        if wrap == 'series':
+            from spatialpandas import GeoSeries
+            w = GeoSeries(a)
+            if carried_sx is not None:
+                w.build_sindex(page_size=getattr(carried_sx, '_page_size', 512))
+            r = w.cx[key]
+            return array_to_py(kind, r.values), list(r.index)
+        if wrap == 'frame':
+            from spatialpandas import GeoDataFrame
+            w = GeoDataFrame({'v': np.arange(len(a)), 'g': a}, geometry='g')
+            if carried_sx is not None:
+                w.build_sindex(page_size=getattr(carried_sx, '_page_size', 512))
+            r = w.cx[key]
+            return array_to_py(kind, r['g'].values), list(r['v'])
+        return array_to_py(kind, a.cx[key]), None
+
+    for wrap in ([None, 'series', 'frame'] if wrappers else [None]):
+        for key in keys:
+            try:
+                got, gi = rows(arr, key, wrap)
+            except Exception as e:  # noqa: BLE001
+                return (f'cx-raises:{type(e).__name__}',
+                        f'{_key_str(key)} ({wrap or "array"}) raised {type(e).__name__}: {str(e)[:160]}')
+            want, wi = rows(fresh, key, wrap)
+            if len(got) != len(want) or not all(same_elem(a, b) for a, b in zip(got, want)) \
+                    or gi != wi:
+                return ('cx-differs',
+                        f'{_key_str(key)} on the derived {wrap or "array"} selects {got!r} '
+                        f'(rows {gi}), on a fresh one of the same elements {want!r} (rows {wi})')
+    # the index the derived array carries (or builds on its own buffers) against a fresh one
+    sx = getattr(arr, '_sindex', None)
+    carried = sx is not None
+    if sx is None:
+        sx = type(arr)(arr.data, dtype=arr.dtype).sindex
+    fx = type(fresh)(fresh.data, dtype=fresh.dtype).sindex
+    for b in BOXES:
+        g = sorted(int(i) for i in sx.intersects(b))
+        w = sorted(int(i) for i in fx.intersects(b))
+        if g != w:
+            return ('sindex-differs',
+                    f'the spatial index {"carried by" if carried else "built on"} the derived array '
+                    f'answers intersects({b}) = {g}, a fresh array\'s {w}')
+    return None
